@@ -190,13 +190,6 @@ func flight4Parse(
 		cfg.WriteKeyLog(keyLogLabel, clientRandom[:], state.MasterSecret)
 	}
 
-	if len(state.SessionID) > 0 {
-		cfg.Log.Tracef("[handshake] save new session: %x", state.SessionID)
-		if err := cfg.SetSession(state.SessionID, state.SessionID, state.MasterSecret); err != nil {
-			return 0, &alert.Alert{Level: alert.Fatal, Description: alert.InternalError}, err
-		}
-	}
-
 	// Now, encrypted packets can be handled
 	if err := conn.HandleQueuedPackets(ctx); err != nil {
 		return 0, &alert.Alert{Level: alert.Fatal, Description: alert.InternalError}, err
@@ -242,7 +235,7 @@ func flight4Parse(
 			}
 		}
 
-		return Flight6, nil, nil
+		return flight4SaveSession(state, cfg)
 	}
 
 	switch cfg.ClientAuth {
@@ -267,6 +260,21 @@ func flight4Parse(
 	if cfg.VerifyConnection != nil {
 		if err := cfg.VerifyConnection(state); err != nil {
 			return 0, &alert.Alert{Level: alert.Fatal, Description: alert.BadCertificate}, err
+		}
+	}
+
+	return flight4SaveSession(state, cfg)
+}
+
+// flight4SaveSession stores the session for resumption once the client's Finished has been
+// verified and the client-authentication policy is satisfied. Stored any earlier, the session of
+// a client that sent its ClientKeyExchange and then went silent stayed in the store (no alert is
+// ever sent that would evict it), and resuming it skips client authentication altogether.
+func flight4SaveSession(state *dtlsstate.State12, cfg *dtlsconfig.HandshakeConfig) (Flight, *alert.Alert, error) {
+	if len(state.SessionID) > 0 {
+		cfg.Log.Tracef("[handshake] save new session: %x", state.SessionID)
+		if err := cfg.SetSession(state.SessionID, state.SessionID, state.MasterSecret); err != nil {
+			return 0, &alert.Alert{Level: alert.Fatal, Description: alert.InternalError}, err
 		}
 	}
 
